@@ -133,7 +133,9 @@ class Engine:
         for gi, g in enumerate(goals):
             k0 = self.sym_int("sk")
             s2 = st.fork()
-            s2.pc += [to_z3(q(k0)) for q in st.ghost.get("Q", [])]
+            # instantiation at the skolem constant and at the terms the path registered (e.g. the key just looked up)
+            for term in [k0] + list(st.ghost.get("Qterms", [])):
+                s2.pc += [to_z3(q(term)) for q in st.ghost.get("Q", [])]
             self.oblige(f"{name}/forall{gi}", s2, g(k0), **meta)
 
     def feasible(self, pc):
@@ -755,6 +757,17 @@ class Engine:
 
     def cmp(self, op, a, b, s=None):
         if isinstance(op, (ast.Is, ast.IsNot)):
+            def ident(v):
+                # abstract class objects carry their identity in `cid` (two references to the same class are `is`-identical)
+                if isinstance(v, Rec) and "cid" in v.f:
+                    return v.f["cid"]
+                if isinstance(v, Ref) and s is not None and isinstance(s.H(v), dict) and "cid" in s.H(v):
+                    return s.H(v)["cid"]
+                return None
+            ia, ib = ident(a), ident(b)
+            if ia is not None and ib is not None:
+                r = Eq(ia, ib)
+                return Not(r) if isinstance(op, ast.IsNot) else r
             if is_sym(a) or is_sym(b):
                 if is_sym(a) and is_sym(b):
                     r = a == b
@@ -1609,6 +1622,8 @@ class Engine:
             it.pc += [k >= 0, k < N, to_z3(spec.inv(it, k, N))]
             if spec.qinv:
                 it.ghost["Q"] = list(it.ghost.get("Q", [])) + spec.qinv(it, k, N)
+            if spec.qfacts:
+                it.ghost["Q"] = list(it.ghost.get("Q", [])) + spec.qfacts(it, k, N)
             if not self.feasible(it.pc):
                 it = None
             if it is not None:
@@ -1700,11 +1715,14 @@ class Engine:
 class LoopSpec:
     """inv(state[, k, N]) -> bool term; havoc(engine, state, tag) mutates state in place"""
 
-    def __init__(self, inv, havoc, on_break=None, iterator=False, qinv=None):
+    def __init__(self, inv, havoc, on_break=None, iterator=False, qinv=None, qfacts=None):
         """qinv(state[, k, N]) -> list of python callables c -> z3 Bool: universally quantified conjuncts of the invariant
         (forall c. f(c)).  They are never handed to the solver as quantifiers: a goal is skolemised at a fresh constant and
         every assumed fact is instantiated at that constant (complete for cell-wise array invariants)."""
         self.inv, self.havoc, self.on_break, self.iterator, self.qinv = inv, havoc, on_break, iterator, qinv
+        # qfacts(state, k, N): definitional facts (instances of the definition of a specification function at the current
+        # iteration) that are assumed, never proved
+        self.qfacts = qfacts
 
 
 def _as_load(t):
